@@ -48,13 +48,24 @@ EXPECTED_PROBES = ["push-buffer_output-overflow", "push-buffer_input-overflow", 
                    "split-B-coprime-to-n", "split-B-multiple-of-n", "fillrequestseq-push", "reset-on",
                    "watchdog-guarded-calls", "element-stops-in-the-last-slot-of-a-block",
                    "post-element-sees-several-results-of-one-request", "same-object-run-twice",
-                   "thousand-blocks-between-two-requests"]
+                   "thousand-blocks-between-two-requests", "none-values-in-the-flow",
+                   "element-with-both-interfaces", "run-element-with-reset-method-unasked",
+                   "run-element-with-reset-method-asked"]
 
 BUDGET = 200000
 
 
 class Spec(object):
     pass
+
+
+def mk(s):
+    """flow value for serial s (a bare None stands for itself: it is a legal value)"""
+    return None if s is None else Tok(s)
+
+
+def ser(v):
+    return None if v is None else v.serial
 
 
 class ProbeFCR(object):
@@ -73,11 +84,11 @@ class ProbeFCR(object):
 
     def fill(self, v):
         if self.stop_at is not None and len(self.all_fills) >= self.stop_at:
-            self.log.ev("stopfill", self.name, v.serial)
+            self.log.ev("stopfill", self.name, ser(v))
             raise lena.core.LenaStopFill()
-        self.log.ev("fill", self.name, v.serial)
-        self.filled.append(v.serial)
-        self.all_fills.append(v.serial)
+        self.log.ev("fill", self.name, ser(v))
+        self.filled.append(ser(v))
+        self.all_fills.append(ser(v))
 
     def compute(self):
         c = self.ncomp
@@ -102,6 +113,18 @@ class ProbeFRR(ProbeFCR):
     compute = None
 
 
+class ProbeBoth(ProbeFRR):
+    """an element that offers both interfaces, consistently: run over a flow is fill for
+    every value followed by one request"""
+
+    def run(self, flow):
+        self.log.ev("runbody", self.name, self.ncomp)
+        for v in flow:
+            self.fill(v)
+        for r in self.request():
+            yield r
+
+
 class ProbeRunEl(object):
     """run element: one result per invocation naming the values it got, plus
     (optionally) one result per value."""
@@ -114,23 +137,40 @@ class ProbeRunEl(object):
         self.selective = selective
         self.nruns = 0
         self.all_fills = []
+        self.stateful = False   # results tell how many values were seen since the last reset
+        self.carry = 0
+        self.nreset = 0
 
     def run(self, flow):
         r = self.nruns
         self.nruns += 1
         self.log.ev("runbody", self.name, r)
         vals = []
+        before = self.carry
         for v in flow:
-            self.log.ev("runval", self.name, v.serial)
-            vals.append(v.serial)
-            self.all_fills.append(v.serial)
+            self.log.ev("runval", self.name, ser(v))
+            vals.append(ser(v))
+            self.all_fills.append(ser(v))
+            self.carry += 1
             if self.selective:
-                if v.serial % 4 == 3:
+                if v is not None and v.serial % 4 == 3:
                     yield (self.name, "v", v.serial)
             elif self.per_value:
-                yield (self.name, "v", v.serial)
+                yield (self.name, "v", ser(v))
         if not self.selective:
-            yield (self.name, 0, tuple(vals))
+            if self.stateful:
+                yield (self.name, 0, tuple(vals), before)
+            else:
+                yield (self.name, 0, tuple(vals))
+
+
+class ProbeRunElReset(ProbeRunEl):
+    """a run element that happens to have a reset method"""
+
+    def reset(self):
+        self.nreset += 1
+        self.log.ev("reset", self.name)
+        self.carry = 0
 
 
 def gen_scenario(tape):
@@ -188,6 +228,17 @@ def gen_scenario(tape):
         # what request() owes its caller then is not stated anywhere, so it is not generated
         sc.buffer = "output"
         sc.remainder = False
+    # a run element that happens to have a reset method: it is reset between blocks only when
+    # reset is asked for
+    sc.run_reset = "none"
+    if sc.kind == "run" and sc.driver == "run" and sc.wrapper == "bare":
+        sc.run_reset = tape.weighted([(2, "none"), (1, "unasked"), (1, "asked")], "run-element-reset-method")
+    # an element with both interfaces (run, and fill with request)
+    sc.both = sc.kind == "fr" and sc.wrapper != "seq" and tape.chance(1, 4, "element-with-both-interfaces")
+    # bare None values in the flow
+    sc.nones = []
+    if not sc.long and tape.chance(1, 4, "none-values"):
+        sc.nones = [p for p in range(sc.len) if tape.draw(3, "none-here") == 0]
     # request points for the push history: position p means "after p fills"
     sc.reqs = []
     if sc.driver == "push" and not sc.long:
@@ -203,9 +254,15 @@ def gen_scenario(tape):
 def make_probe(sc, log):
     if sc.kind == "fc":
         return ProbeFCR(log, "el", sc.results, getattr(sc, "stop_at", None))
+    if sc.kind == "fr" and getattr(sc, "both", False):
+        return ProbeBoth(log, "el", sc.results, getattr(sc, "stop_at", None))
     if sc.kind == "fr":
         return ProbeFRR(log, "el", sc.results, getattr(sc, "stop_at", None))
-    return ProbeRunEl(log, "el", sc.per_value, getattr(sc, "selective", False))
+    rr = getattr(sc, "run_reset", "none")
+    cls = ProbeRunEl if rr == "none" else ProbeRunElReset
+    p = cls(log, "el", sc.per_value, getattr(sc, "selective", False))
+    p.stateful = rr != "none"
+    return p
 
 
 def make_adapter(sc, probe):
@@ -215,6 +272,9 @@ def make_adapter(sc, probe):
     else:
         kw["buffer_output"] = True
     if sc.kind == "run":
+        if getattr(sc, "run_reset", "none") == "asked":
+            return lena.core.FillRequest(probe, reset=True, **kw)
+        # reset is not given: the element is not reset, whether it has such a method or not
         return lena.core.FillRequest(probe, **kw)
     return lena.core.FillRequest(probe, reset=sc.reset, **kw)
 
@@ -243,6 +303,7 @@ def model_blocks(sc, values):
     n = sc.n
     out = []
     filled = []     # what the element holds (since its last reset)
+    carry = 0       # values a stateful run element has seen since its last reset
     i = 0
     while i < len(values):
         block = values[i:i + n]
@@ -251,11 +312,16 @@ def model_blocks(sc, values):
             if len(block) < n and not sc.remainder:
                 break
             if getattr(sc, "selective", False):
-                out.extend(("el", "v", s) for s in block if s % 4 == 3)
+                out.extend(("el", "v", s) for s in block if s is not None and s % 4 == 3)
                 continue
             if sc.per_value:
                 out.extend(("el", "v", s) for s in block)
-            out.append(("el", 0, tuple(block)))
+            rr = getattr(sc, "run_reset", "none")
+            if rr == "none":
+                out.append(("el", 0, tuple(block)))
+            else:
+                out.append(("el", 0, tuple(block), carry))
+                carry = 0 if rr == "asked" else carry + len(block)
             continue
         filled.extend(block)
         if len(block) < n:
@@ -316,6 +382,18 @@ def run(tape):
                                                                  else ", stopping fill/request sibling Slice(%d)" % sc.stopper)
                                     if sc.wrapper == "split" else ""), sc.len))
     values = list(range(sc.len))
+    for p in sc.nones:
+        values[p] = None
+    if sc.nones:
+        res.probe("none-values-in-the-flow")
+        res.say("the values at positions %r are None" % (sc.nones,))
+    if sc.both:
+        res.probe("element-with-both-interfaces")
+        res.say("the wrapped element has run as well as fill and request")
+    if sc.run_reset != "none":
+        res.probe("run-element-with-reset-method-%s" % sc.run_reset)
+        res.say("the run element has a reset method; reset is %s" % (
+            "True" if sc.run_reset == "asked" else "not given"))
     cfg = "%s:%s" % ("buffer_" + sc.buffer, "remainder" if sc.remainder else "blocks")
     if sc.reset:
         res.probe("reset-on")
@@ -352,7 +430,7 @@ def drive_run(sc, res, values, cfg):
     probe = make_probe(sc, log)
     obj = wrap(sc, make_adapter(sc, probe), log)
     log.ev("op", "run", len(values))
-    flow = iter([Tok(s) for s in values])
+    flow = iter([mk(s) for s in values])
     got, hang = guarded(res, "run", lambda: list(obj.run(flow)))
     if hang:
         res.viol("C16:FillRequest:run:%s:hang" % cfg, "run() over %d values exceeded the step "
@@ -376,7 +454,7 @@ def drive_run(sc, res, values, cfg):
         return
     if not check_probe_log(sc, res, probe, values, nfull, cfg, "run"):
         return
-    if sc.kind != "run":
+    if sc.kind != "run" and not getattr(sc, "both", False):
         # one request per emitted block, one reset after each full block
         emitted = nfull + (1 if (sc.remainder and len(values) % sc.n) else 0)
         if probe.ncomp != emitted:
@@ -389,7 +467,8 @@ def drive_run(sc, res, values, cfg):
                      "%d full blocks but %d resets" % (nfull, probe.nreset))
 
 
-    if getattr(sc, "second_run", None) is not None and not sc.remainder and sc.wrapper == "bare":
+    if getattr(sc, "second_run", None) is not None and not sc.remainder and sc.wrapper == "bare" \
+            and not getattr(sc, "both", False):
         # the same object runs a second flow.  What the wrapped element still holds of an
         # incomplete last block is not defined; that every new value is filled exactly once, in
         # order, and that one block of results is emitted per bufsize new values, is.
@@ -499,7 +578,7 @@ def drive_push(sc, res, values, cfg):
             res.probe("push-buffer_%s-overflow" % sc.buffer)
         def fill_one(s=s):
             try:
-                obj.fill(Tok(s))
+                obj.fill(mk(s))
             except lena.core.LenaStopFill:
                 stopped[0] = True
         _, hang = guarded(res, "fill", fill_one)
@@ -554,7 +633,7 @@ def drive_split(sc, res, values, cfg):
     n = sc.n
     branches = []
     for j in range(sc.sib_before):
-        branches.append(lena.core.Sequence(lambda v, j=j: ("sibA%d" % j, v.serial)))
+        branches.append(lena.core.Sequence(lambda v, j=j: ("sibA%d" % j, ser(v))))
     if getattr(sc, "stopper", None) is not None:
         # it is removed from the Split when it stops; the adapter behind it must still get
         # every value of every block
@@ -564,10 +643,10 @@ def drive_split(sc, res, values, cfg):
                                                buffer_input=True)))
     branches.append(adapter)
     for j in range(sc.sib_after):
-        branches.append(lena.core.Sequence(lambda v, j=j: ("sibB%d" % j, v.serial)))
+        branches.append(lena.core.Sequence(lambda v, j=j: ("sibB%d" % j, ser(v))))
     split = lena.core.Split(branches, bufsize=B)
     log.ev("op", "split-run", len(values), str(B))
-    flow = iter([Tok(s) for s in values])
+    flow = iter([mk(s) for s in values])
     got, hang = guarded(res, "split", lambda: list(split.run(flow)))
     if hang:
         res.viol("C16:FillRequest:split:%s:hang" % cfg,
